@@ -84,6 +84,8 @@ pub open spec fn continue_untouched(req: HtlcAcceptedRequest, r: HtlcAcceptedRes
           && (has_self_hint(r->Trampoline_0.invoice, self.params.local_pubkey) ==> self.params.allow_self_route_hints))
 //@ ensures#otherwise_continue_untouched_or_self_hint_failure [C13,C10]
       r is Response ==> (continue_untouched(*req, r->Response_0) || r->Response_0 is Fail)
+//@ ensures#direct_failure_is_temporary_node_failure [C10,C02]
+      (r is Response && r->Response_0 is Fail) ==> r->Response_0->failure_message@ == seq![0x20u8, 2u8]
 //@ ensures#forward_is_continue [C13]
       req.onion.short_channel_id is Some ==> (r is Response && continue_untouched(*req, r->Response_0))
 //@ closure 0
@@ -147,4 +149,30 @@ pub open spec fn policy_failure(p: TrampolineRoutingPolicy) -> Seq<u8> {
       (old(payment_state).resolution is Some ==> sender.fate() == old(payment_state).resolution)
       && (old(payment_state).resolution is None ==>
             final(g).held == old(g).held.push(HeldAbs { amount: req.htlc.amount_msat, expiry: req.htlc.cltv_expiry }))
+//@ end
+
+// ---- the whole handle_htlc (closure body verbatim; payment_lifecycle enters as a stub: under E2
+// its call inside tokio::spawn(..) is the hand-over of the new task, not under contract) ----------
+//@ fn htlc_manager::payment_lifecycle
+//@ end
+
+//@ fn htlc_manager::HtlcManager::handle_htlc
+//@ returns r
+//@ ghostparam Tracked(w): Tracked<&mut World>, Tracked(g): Tracked<&mut G>
+//@ implicit [C06]
+//@ requires#ghost_of_this_call
+      !old(g).via_listener && old(g).incoming == req.htlc.amount_msat
+//@ ensures#a_held_htlc_is_settled_only_through_its_own_listener [C02,C01,C06,C07]
+//    a Resolve answer is always the value the payment lifecycle sent on this call's own oneshot
+      r is Resolve ==> final(g).via_listener
+//@ ensures#a_held_htlc_is_failed_only_through_its_own_listener [C02,C06,C07]
+//    the only failure answered directly is the self-route-hint temporary_node_failure of the
+//    classification; every other Fail comes from the lifecycle through the listener
+      (r is Fail && !final(g).via_listener) ==> r->failure_message@ == seq![0x20u8, 2u8]
+//@ ensures#direct_continue_is_untouched [C13]
+      (r is Continue && !final(g).via_listener) ==> continue_untouched(*req, r)
+//@ closure 0
+//@ creturns p: PaymentState
+//@ ensures#fresh_entry_is_blank_and_for_this_trampoline [C06,C03,C07]
+      ps_inv(p, blank_g()) && p.trampoline == trampoline
 //@ end
